@@ -329,6 +329,28 @@ def run(ctx):
     return compare(ctx, dom, g, table, obs, cfgs, mcres, stats)
 
 
+def disagreements(rows, table, obs):
+    """The oracle: (row, [reasons]) for every row whose real verdict / arity differs from the table, or whose
+    AddDeny variant is allowed on the real code although its base row is refused on the real code."""
+    out = []
+    for r in rows:
+        t, o = table[r["id"]], obs[r["id"]]
+        mism = []
+        if o["ok"] != t["ok"]:
+            mism.append("verdict: real %s (%s), specified %s (%s at level %d)" % (
+                "allow" if o["ok"] else "refuse", o.get("err", "no error"), "allow" if t["ok"] else "refuse",
+                t["why"], t["level"]))
+        elif r["kind"] == "auto-connection" and t["ok"] and o["any"] != t["any"]:
+            mism.append("arity: real slots-per-plug any=%s, specified any=%s" % (o["any"], t["any"]))
+        if r["add"]:
+            b = obs[r["base"]]
+            if not b["ok"] and o["ok"]:
+                mism.append("DenyMonotone: refused without the extra deny alternative (%s) but allowed with it" % b.get("err"))
+        if mism:
+            out.append((r, mism))
+    return out
+
+
 def compare(ctx, dom, g, table, obs, cfgs, mcres, stats):
     rows = g.rows
     if len(table) != len(rows) or len(obs) != len(rows):
@@ -341,8 +363,24 @@ def compare(ctx, dom, g, table, obs, cfgs, mcres, stats):
     if infra:
         raise InfraError("driver could not materialise %d row(s), e.g. row %d: %s" % (len(infra), infra[0]["id"], infra[0]["infra"]))
 
+    bad = disagreements(rows, table, obs)
+    bad_ids = set(r["id"] for r, _ in bad)
     violations = []
-    nviol = 0
+    for r, mism in bad[:60]:
+        violations.append(Violation(key="C21 " + row_key(g, r), desc="; ".join(mism),
+                                    replay={"row": describe(dom, g, r), "real": obs[r["id"]], "specified": table[r["id"]]}))
+    if len(bad) > len(violations):
+        violations[-1].desc += " (%d rows disagree in total)" % len(bad)
+
+    # the binding is real: corrupting one recorded field of a real observation must be rejected
+    probe = next((r for r in rows if r["id"] not in bad_ids and not r["add"]), None)
+    if probe is None:
+        raise InfraError("no agreeing row to run the corruption self-check on")
+    forged = dict(obs)
+    forged[probe["id"]] = dict(obs[probe["id"]], ok=not obs[probe["id"]]["ok"])
+    if not any(r["id"] == probe["id"] for r, _ in disagreements(rows, table, forged)):
+        raise InfraError("binding self-check failed: a corrupted observation was accepted")
+
     diag = 0
     classes = set()
     refused_pairs = 0
@@ -354,38 +392,24 @@ def compare(ctx, dom, g, table, obs, cfgs, mcres, stats):
         allowed_n += t["ok"]
         refused_n += not t["ok"]
         any_n += t["any"]
-        mism = []
-        if o["ok"] != t["ok"]:
-            mism.append("verdict: real %s (%s), specified %s (%s at level %d)" % (
-                "allow" if o["ok"] else "refuse", o.get("err", "no error"), "allow" if t["ok"] else "refuse", t["why"], t["level"]))
-        elif r["kind"] == "auto-connection" and t["ok"] and o["any"] != t["any"]:
-            mism.append("arity: real slots-per-plug any=%s, specified any=%s" % (o["any"], t["any"]))
-        elif not t["ok"] and o["why"] != "?" and (o["why"] != t["why"] or o["level"] != t["level"]):
+        if r["id"] in bad_ids:
+            continue
+        if not t["ok"] and o["why"] != "?" and (o["why"] != t["why"] or o["level"] != t["level"]):
             diag += 1       # same verdict, different deciding rule named in the message: diagnostic only
-        if r["add"]:
-            b = obs[r["base"]]
-            if not b["ok"]:
-                refused_pairs += 1
-                if o["ok"]:
-                    mism.append("DenyMonotone: refused without the extra deny alternative (%s) but allowed with it" % b.get("err"))
-        if mism:
-            nviol += 1
-            if len(violations) < 60:
-                violations.append(Violation(key="C21 " + row_key(g, r), desc="; ".join(mism),
-                                            replay={"row": describe(dom, g, r), "real": o, "specified": t}))
-        elif len(samples) < 5 and (r["id"] * 7919 + ctx.seed) % 997 == 0:
+        if r["add"] and not obs[r["base"]]["ok"]:
+            refused_pairs += 1
+        if len(samples) < 5 and (r["id"] * 7919 + ctx.seed) % 997 == 0:
             samples.append({"row": row_key(g, r), "specified": {k: t[k] for k in ("ok", "why", "level", "any")},
                             "real": {k: o.get(k) for k in ("ok", "why", "level", "any", "err")}})
     if not samples:
         r = rows[0]
         samples.append({"row": row_key(g, r), "specified": table[r["id"]], "real": obs[r["id"]]})
-    if nviol > len(violations):
-        violations[-1].desc += " (%d rows disagree in total)" % nviol
     if len(classes) < 12 or allowed_n == 0 or refused_n == 0 or any_n == 0:
         raise InfraError("vacuity guard: table too uniform (classes=%d allowed=%d refused=%d any=%d)" % (
             len(classes), allowed_n, refused_n, any_n))
-    if refused_pairs == 0:
+    if refused_pairs == 0 and not bad:
         raise InfraError("vacuity guard: no refused base row among the AddDeny pairs")
+    nviol = len(bad)
 
     states = sum(m.distinct for m in mcres)
     trans = sum(m.generated for m in mcres)
@@ -402,6 +426,7 @@ def compare(ctx, dom, g, table, obs, cfgs, mcres, stats):
         "distinct_outcome_classes": len(classes), "rows_allowed": allowed_n, "rows_refused": refused_n,
         "rows_arity_any": any_n, "adddeny_pairs_with_refused_base": refused_pairs,
         "same_verdict_other_rule_named": diag, "rows_disagreeing": nviol,
+        "corrupted_observation_rejected": True,
         "driver": stats,
     }
     assumptions = [
